@@ -67,13 +67,25 @@ func (r *runner) genC01(seed int64, ndb, nq, depth int, only onlySet, nRandom in
 	for d := 0; d < ndb; d++ {
 		g := sqlgen.New(seed*1000003 + int64(d))
 		g.MaxJoin = 3
-		g.MaxRows = 6
+		g.MaxRows = 10
+		g.IndexAll = d%4 != 0 // three of four databases has indexes on all join candidates (merge/lookup joins apply)
 		tabs := g.Schema(3)
 		var s *eng.Session
 		var db *eng.DB
+		var pendingNeg *sqlast.Query
 		for k := 0; k < nq; k++ {
 			id++
-			q := g.Query(depth)
+			var q *sqlast.Query
+			nr := nRandom
+			if pendingNeg != nil {
+				q, pendingNeg = pendingNeg, nil
+				nr = 1
+			} else if k%3 != 0 {
+				q, pendingNeg = g.OuterJoinResidualPair(1) // join + residual ON predicate over duplicate keys
+				nr = 1                                    // the hint steerings matter here; fewer random costers, more queries
+			} else {
+				q = g.Query(depth)
+			}
 			if only.skip(id) {
 				continue
 			}
@@ -81,7 +93,7 @@ func (r *runner) genC01(seed int64, ndb, nq, depth int, only onlySet, nRandom in
 				db, s = setup(tabs)
 				r.w.Write(dbEvent(tabs))
 			}
-			distinctPlans += r.runMulti(db, s, id, q, nRandom, uint64(seed)*7919+uint64(id))
+			distinctPlans += r.runMulti(db, s, id, q, nr, uint64(seed)*7919+uint64(id))
 		}
 	}
 	r.rep.Extra["plan_fingerprints_total"] = distinctPlans
